@@ -6,7 +6,7 @@ LZ4_decompress_safe_continue after LZ4_setStreamDecode); the prepared dictionary
 LZ4_streamHC_t) and the dictionary buffer are byte-identical after every use."""
 import random
 import streamlib as sl
-from vlib import build_lib
+from vlib import build_lib, Oracle
 
 THEOREMS = ["C12_loadDict_inv", "C12_loadDict_hist", "C12_loadDict_roundtrip", "C12_attach_inv", "C12_attach_roundtrip", "C12_dictctx_unchanged", "C12_hc_mid_loadDict", "C12_hc_mid_loadDict_roundtrip", "C12_hc_mid_attach_roundtrip", "C12_hc_mid_saveDict_attached", "C12_hc_chain_loadDict", "C12_hc_chain_loadDict_roundtrip", "C12_hc_chain_attach_roundtrip", "C12_hc_opt_loadDict", "C12_hc_opt_loadDict_roundtrip", "C12_hc_opt_attach_roundtrip"]
 ORACLES = ["stream", "framec"]
